@@ -70,6 +70,8 @@ func run(repo, prop, tier string, seed int, out, known, cg, arg string) (code in
 		return debugOrigin(p, arg)
 	case "units":
 		return debugUnits(p, arg)
+	case "errdisc":
+		return debugErrDisc(p, arg)
 	case "dep":
 		return debugDep(p, arg)
 	case "dump":
